@@ -10,7 +10,7 @@ import ast
 
 from sa.absint import Evaluator, all_effects
 from sa.index import AnalysisError
-from sa.terms import App, Const, Ref, Sym, contains, subterms
+from sa.terms import App, Const, Ref, Sym, contains, dict_pairs, subterms
 
 COMMON = "suit_generator.suit.types.common"
 
@@ -1119,3 +1119,36 @@ def loops_env(outcome, value=None):
             if isinstance(s_, App) and s_.op == "loopout" and len(s_.args) == 3:
                 louts.setdefault(s_.args[1].v, {})[s_.args[0].v] = s_.args[2]
     return {"__loops__": loops, "__loopouts__": louts}
+
+
+def hash_table_of(ctx, cls_info, method):
+    """The algorithm table a hashing class consults, found from its use - the mapping indexed inside `hashes.Hash(<table>[name])` of
+    the given method - wherever the table lives (class attribute, module constant, another class): (table term, node to report)."""
+    from sa.absint import Evaluator
+    fi = cls_info.methods.get(method)
+    if fi is None:
+        raise AnalysisError(f"anchor function {cls_info.fq}.{method} vanished")
+    SELF = Sym("param:self")
+    found = []
+    for o in Evaluator(ctx.repo, inline_depth=0).outcomes(fi):
+        if o.kind != "return":
+            continue
+        for s_ in subterms(o.value):
+            if isinstance(s_, App) and s_.op == "hash" and s_.args and isinstance(s_.args[0], App) and s_.args[0].op == "idx":
+                tbl = s_.args[0].args[0]
+                if tbl not in found:
+                    found.append(tbl)
+    if len(found) != 1:
+        raise AnalysisError(f"{ctx.fq(fi)}: the algorithm table is not the mapping indexed inside hashes.Hash(...) ({len(found)} candidates)")
+    tbl = found[0]
+    node = fi.node
+    if isinstance(tbl, App) and tbl.op.startswith("attr:") and tbl.args and tbl.args[0] in (SELF, Sym("param:cls")):
+        name = tbl.op[5:]
+        owner = next((c for c in ctx.repo.mro(cls_info) if name in c.attrs), None)
+        if owner is None:
+            raise AnalysisError(f"{cls_info.fq}.{name}: class attribute holding the algorithm table not found")
+        node = owner.attr_nodes[name]
+        tbl = ctx.ev.term(owner.attrs[name], owner.module)
+    if dict_pairs(tbl) is None:
+        raise AnalysisError(f"{ctx.fq(fi)}: algorithm table not foldable ({tbl!r})"[:240])
+    return tbl, node
